@@ -153,6 +153,18 @@ pub fn compile_after_reconfiguring(src: &str, env: &Env, cfg: &Cfg, cfg2: &Cfg) 
     Ok((again, reference))
 }
 
+/// `run_direct` on an instance that is handed in (it may have compiled other transactions before). Like
+/// `resolve_tx`, the run starts by telling the instance that a new transaction begins.
+pub fn run_direct_on(src: &str, env: &Env, c: &mut Compiler) -> Result<CompiledTx, StageErr> {
+    use tx3_tir::compile::Compiler as _;
+    let tir = front(src, &env.tx.name)?;
+    let args = arg_map(env).ok_or(StageErr::Err { stage: "harness", msg: "argument not representable".into() })?;
+    let inputs = input_map(env).ok_or(StageErr::Err { stage: "harness", msg: "utxo not representable".into() })?;
+    c.reset();
+    let tx = apply_all(tir, &args, &inputs, env.fee, c)?;
+    compile(&tx, c)
+}
+
 pub fn bigint_i128(v: &BigInt) -> Option<i128> {
     v.try_into().ok()
 }
